@@ -93,9 +93,24 @@ Print Assumptions c17_response_judged_by_own_status_family.
 (* a retry is set up only where retry() said so: it consumes one unit of the budget and requires the condition *)
 Theorem c17_retry_only_if_condition : forall src c code why s,
   let '(s', _, r) := rs_retry src c code why s in
-  r = RShould -> retry_check src c code why s = true /\ exists n, retry s = Some (S n) /\ retry s' = Some n.
+  r = RShould -> retry_check src c code why s = true /\ retry_disabled src c = false /\ exists n, retry s = Some (S n) /\ retry s' = Some n.
 Proof. exact retry_should_spec. Qed.
 Print Assumptions c17_retry_only_if_condition.
+(* a request that carries proxy_disable_retry (the HTTP/2 server stream sets it when the request body is streamed and cannot be
+   replayed; [c_disable_retry]) is never retried - every route (with or without retry_on), every reason or status, every state:
+   doRetryCheck reads the variable before anything else (read from the source on this run) *)
+Theorem c17_disable_retry_checked_first : disable_retry_first proxy_src = true.
+Proof. exact (eq_refl true). Qed.
+Theorem c17_disabled_request_never_retried : forall c code why s,
+  c_disable_retry c = true -> let '(_, _, r) := rs_retry proxy_src c code why s in r <> RShould.
+Proof. exact (fun c code why s => disabled_request_never_retried src_tree c code why s eq_refl). Qed.
+Print Assumptions c17_disabled_request_never_retried.
+(* read only on routes with retry_on (switch set back), a connect failure of such a request is retried on a route without retry_on *)
+Example c17_disabled_request_retried_witness :
+  nnew (final src_disable_late cfg_disabled drive) = 2%nat /\ nnew (final src_tree cfg_disabled drive) = 1%nat /\
+  g_reply_kind (summ src_tree cfg_disabled drive) = Some (KHijack, reason_code src_tree RsConnFailed).
+Proof. exact witness_disable_retry. Qed.
+
 (* the global time-out is never retried: onUpstreamReset keeps UpstreamGlobalTimeout away from the retry state (switch read from
    the source on this run); every configuration, every state in which the reply has not started: no retry is set up, no attempt is
    started, the 504 local reply is pending *)
